@@ -18,7 +18,7 @@ def det(name):
 
 COMMON_ASSUMPTIONS = [
     "simulated AWS (harness/sim/aws.go) follows the AWS API reference only as far as escalator can observe it",
-    "NewController/NewClient/Builder.Build are mirrored by the verif-tagged hooks, not executed",
+    "in the history checks NewController/NewClient/Builder.Build are mirrored by the verif-tagged hooks; NewClient's informer wiring is executed by the TestWiring* checks",
     "escalator is compiled with go1.26.8 (testing/synctest virtual time)",
 ]
 
